@@ -206,6 +206,7 @@ fn main() {
             }
         }
         let ncases = cases.len();
+        let shared: &'static [highway::HighwayBuildHasher; 4] = Box::leak(Box::new(exec::make_shared()));
         let results: Vec<std::sync::Mutex<Vec<u8>>> = (0..ncases).map(|_| std::sync::Mutex::new(Vec::new())).collect();
         let next = std::sync::atomic::AtomicUsize::new(0);
         std::thread::scope(|sc| {
@@ -218,6 +219,7 @@ fn main() {
                             break;
                         }
                         let mut m = Machine::new(cpu);
+                        m.shared = Some(shared);
                         let mut outv: Vec<u8> = Vec::new();
                         let mut lineno = i;
                         for line in &cases[i] {
@@ -263,6 +265,7 @@ fn main() {
     let stdout = std::io::stdout();
     let mut w = std::io::BufWriter::with_capacity(1 << 20, stdout.lock());
     let mut m = Machine::new(cpu);
+    m.shared = Some(Box::leak(Box::new(exec::make_shared())));
     let mut scratch = vec![0u8; 8 << 20];
     let mut linebuf: Vec<u8> = Vec::with_capacity(1 << 16);
     let mut obuf: Vec<u8> = Vec::with_capacity(1 << 12);
